@@ -53,7 +53,7 @@ import (
 // panics on the empty slice where a later run finds the previous run's targets).  These defects are owned by the isolation property (C15/C20).
 // ONE-LINE SWITCH: set to false once those fixes are merged, to bring the three characters back
 // into the generated teams.
-const detExcludeIsolationDefects = true
+const detExcludeIsolationDefects = false // herta, kafka, serval and danhengimbibitorlunae are repaired (C15/C20 fix commits)
 
 var detIsolationDefects = map[string]bool{"serval": true, "danhengimbibitorlunae": true, "herta": true, "kafka": true}
 
